@@ -658,7 +658,11 @@ impl WalkBuilder {
     /// example, if an ignore file contains an invalid glob, all other globs
     /// are still applied.
     pub fn add_ignore<P: AsRef<Path>>(&mut self, path: P) -> Option<Error> {
-        let mut builder = GitignoreBuilder::new("");
+        // The globs are matched relative to the current directory. Make that
+        // explicit, so that they also apply to absolute paths below it (a
+        // relative path is matched as is either way).
+        let cwd = std::env::current_dir().unwrap_or_default();
+        let mut builder = GitignoreBuilder::new(cwd);
         let mut errs = PartialErrorBuilder::default();
         errs.maybe_push(builder.add(path));
         match builder.build() {
